@@ -328,9 +328,9 @@ func main() {
 		Assumptions: []string{"row syntax parsed back with a regular expression transcribed from the rendered layout", "memory view reached through verif hooks"},
 		Cases: func(t string) int {
 			if t == "thorough" {
-				return 150000
+				return 1500000
 			}
-			return 5000
+			return 15000
 		},
 		Floor: func(t string) int {
 			if t == "thorough" {
